@@ -1,6 +1,6 @@
 (* C16 - sink and visitor errors are reported to the caller, promptly and unchanged.
    Statements only; proofs are in Cbor/EncProofs.v. *)
-From SF Require Import Base.Prelude Core.Events Core.EventsProofs Core.AdapterProofs Cbor.Enc Cbor.EncProofs Json.Enc Json.EncProofs.
+From SF Require Import Base.Prelude Core.Events Core.EventsProofs Core.AdapterProofs Cbor.Enc Cbor.EncProofs Json.Enc Json.EncProofs Ubjson.Enc Ubjson.EncProofs.
 
 (* CBOR encoder, every call sequence and every failure index k: when the writer
    fails at its k-th write (0-based) and keeps failing, and nevertheless every
@@ -38,3 +38,9 @@ Theorem C16_adapter : forall e s s' ok, adapter s e = (s', ok) ->
         length pre = S (k - s_n s) /\ (k < s_n s + length (expand e))%nat).
 Proof. exact AdapterProofs.C16_adapter. Qed.
 Print Assumptions C16_adapter.
+
+(* UBJSON encoder: the same statement. *)
+Theorem C16_ubj_enc : forall evs e' k,
+  ubj_run (uenc0 (Some k)) evs 0 = (e', None) -> (w_n (ue_w e') <= k)%nat.
+Proof. exact C16_ubj_enc0. Qed.
+Print Assumptions C16_ubj_enc.
